@@ -254,16 +254,26 @@ Section Loss.
     end.
 
   (* ------------------------------------------------------------- the losses *)
-  Definition std_shapes_ok (s : shape) (n : nat) (std2s : list vec) : bool :=
-    Nat.eqb (length std2s) n
-    && forallb (fun v => Nat.eqb (length v) (sh_nstd s)) std2s.
+  (* the std container is compared with  stack([posterior.marginal.std[i]] * N):
+     N time points, sh_nstd entries each.  The comparison is made BEFORE
+     remove_filtering_distributions: for a stacked marginal the expected shape
+     has an additional (time) axis, which no container of one std vector per
+     time point matches *)
+  Definition std_shapes_ok (s : shape) (n : nat) (m : marg_store) (std2s : list vec) : bool :=
+    match m with
+    | Stacked _ => false
+    | Single _ =>
+      Nat.eqb (length std2s) n
+      && forallb (fun v => Nat.eqb (length v) (sh_nstd s)) std2s
+    end.
 
   (* loss_lml_timeseries(average_pdfs, tcoeff_index)(u, posterior=, std=);
-     the std container must match (N time points, sh_nstd entries each); the
-     ValueError / IndexError paths are None *)
+     the ValueError (std container) / IndexError (tcoeff_index) paths are None.
+     Consequence of the order of the checks: remove_filtering_distributions is
+     the identity on every posterior that reaches it. *)
   Definition loss_lml_timeseries (val : dterm -> F) (avg : bool) (s : shape) (i : nat)
              (us : list (list mat)) (post : markov_seq) (std2s : list vec) : option F :=
-    if Nat.leb i (sh_q s) && std_shapes_ok s (length us) std2s then
+    if Nat.leb i (sh_q s) && std_shapes_ok s (length us) (ms_marginal post) std2s then
       match remove_filtering_distributions post with
       | Some (mkMS (Single term) conds) =>
         evaluate_lml val avg s term conds us (map (to_derivative s i) std2s)
@@ -274,7 +284,7 @@ Section Loss.
   Definition loss_lml_timeseries_terms (s : shape) (i : nat)
              (us : list (list mat)) (post : markov_seq) (std2s : list vec)
     : option (list (list dterm)) :=
-    if Nat.leb i (sh_q s) && std_shapes_ok s (length us) std2s then
+    if Nat.leb i (sh_q s) && std_shapes_ok s (length us) (ms_marginal post) std2s then
       match remove_filtering_distributions post with
       | Some (mkMS (Single term) conds) =>
         evaluate_lml_terms s term conds us (map (to_derivative s i) std2s)
